@@ -46,3 +46,6 @@ var (
 	TrustTokenizer = "x/net/html tokenizer contract: tag names and attribute keys are ASCII-lower-cased, attribute values and text are entity-decoded, Token.Attr is a fresh slice per token, ErrorToken terminates the stream"
 	TrustTokenString = "x/net/html Token.String escapes & ' < > \" and CR in text and attribute values and serialises comments through escapeCommentString"
 )
+
+// newScratchReport creates a report that is never written (used to re-run a rule set as a lemma).
+func newScratchReport() *core.Report { return core.NewReport("scratch", "quick", "other") }
